@@ -8,38 +8,43 @@ VERIF=$(cd "$(dirname "$0")" && pwd)
 export VERIF_ROOT=$VERIF
 REPO=${VERIF_REPO:-/repo}
 export VERIF_REPO=$REPO
-mkdir -p $VERIF/.bin
+# binaries of a scratch tree live in their own directory: a trial on a seeded change never replaces the
+# binaries a concurrent run on /repo is using
+BIN=$VERIF/.bin
+if [ "$REPO" != /repo ]; then BIN=$VERIF/.bin/alt$(echo "$REPO" | tr '/' '_'); fi
+mkdir -p $BIN
+export VERIF_SWAGGER_BIN=$BIN/swagger
 cd $VERIF/mc || exit 2
 MODFLAG=""
 if [ "$REPO" = /repo ]; then
   cp /repo/go.sum go.sum
 else
-  sed "s#=> /repo#=> $REPO#" go.mod > $VERIF/.bin/alt.mod
-  cp $REPO/go.sum $VERIF/.bin/alt.sum
-  MODFLAG="-modfile=$VERIF/.bin/alt.mod"
+  sed "s#=> /repo#=> $REPO#" go.mod > $BIN/alt.mod
+  cp $REPO/go.sum $BIN/alt.sum
+  MODFLAG="-modfile=$BIN/alt.mod"
 fi
-tmpbin=$VERIF/.bin/check.$$
-if ! go build $MODFLAG -o $tmpbin ./cmd/check >$VERIF/.bin/build.$$.log 2>&1; then
-  cat $VERIF/.bin/build.$$.log >&2
-  rm -f $VERIF/.bin/build.$$.log $tmpbin
+tmpbin=$BIN/check.$$
+if ! go build $MODFLAG -o $tmpbin ./cmd/check >$BIN/build.$$.log 2>&1; then
+  cat $BIN/build.$$.log >&2
+  rm -f $BIN/build.$$.log $tmpbin
   echo "HARNESS-ERROR: checker does not build against $REPO" >&2
   exit 2
 fi
-rm -f $VERIF/.bin/build.$$.log
-mv -f $tmpbin $VERIF/.bin/check
+rm -f $BIN/build.$$.log
+mv -f $tmpbin $BIN/check
 # the real swagger binary, from the same working tree (used by every generator / scanner check)
-tmpsw=$VERIF/.bin/swagger.$$
-if ! (cd $REPO && go build -o $tmpsw ./cmd/swagger) >$VERIF/.bin/buildsw.$$.log 2>&1; then
-  cat $VERIF/.bin/buildsw.$$.log >&2
-  rm -f $VERIF/.bin/buildsw.$$.log $tmpsw
+tmpsw=$BIN/swagger.$$
+if ! (cd $REPO && go build -o $tmpsw ./cmd/swagger) >$BIN/buildsw.$$.log 2>&1; then
+  cat $BIN/buildsw.$$.log >&2
+  rm -f $BIN/buildsw.$$.log $tmpsw
   echo "HARNESS-ERROR: swagger does not build in $REPO" >&2
   exit 2
 fi
-rm -f $VERIF/.bin/buildsw.$$.log
-mv -f $tmpsw $VERIF/.bin/swagger
+rm -f $BIN/buildsw.$$.log
+mv -f $tmpsw $BIN/swagger
 if [ "${1:-}" = "--setup" ]; then
   echo "setup ok"
   exit 0
 fi
 cd $VERIF
-exec $VERIF/.bin/check "$@"
+exec $BIN/check "$@"
